@@ -372,6 +372,7 @@ func genDStar(g *vlib.G) {
 					}
 					if msg != "" {
 						nviol++
+						t.Count("violations:dstar", 1)
 						sub := ""
 						for _, o := range ops {
 							sub += o.String() + "; "
